@@ -16,7 +16,7 @@ Not decided: liveness ("a requested refresh is eventually answered"), end-to-end
 """
 from ..inline import inline_view
 from ..mir import AnchorLost
-from ..util import bool_edges, uses_of_local, guard_across_yield, df_of, enum_variant_of_operand, operand_path, path_last, one_call, yields, switch_on, switch_edges, in_set, fn_short
+from ..util import truth_edges, bool_edges, uses_of_local, guard_across_yield, df_of, enum_variant_of_operand, operand_path, path_last, one_call, yields, switch_on, switch_edges, in_set, fn_short
 
 MOD = "scylla::cluster::metadata::merge_channel::"
 
@@ -81,11 +81,11 @@ def r1_r4(ctx, facts):
         r1.instance("fresh-%s-per-iteration" % nm, not (reach & tb),
                     "after being woken, recv must pass %s() again before inspecting the slot" % nm, poll.span)
     # dropped edge: the return value derives from a take executed after the load on the true edge
-    sws = switch_on(b, df, ("call", load.bb))
-    if len(sws) != 1:
+    sws3 = truth_edges(b, df, ("call", load.bb))
+    if len(sws3) != 1:
         raise AnchorLost("no unique switch on the sender_dropped load")
-    edges, other = switch_edges(b, sws[0])
-    true_tg, false_tg = bool_edges(b, sws[0])
+    sws = [sws3[0][0]]
+    true_tg, false_tg = sws3[0][1], sws3[0][2]
     reach_true = b.reachable_from(true_tg, removed_nodes=[notified.bb])
     retake = [t for t in takes if t.bb in reach_true and b.dominates(sws[0], t.bb)]
     ok = False
@@ -225,11 +225,10 @@ def r3(ctx, facts):
     r.instance("flag-tested-before-f", in_set(st_f.get(("call", load.bb)) if st_f else None, {0}),
                "f must only run in the receiver_dropped==false region", f.span)
     # the true edge returns Err(SendError)
-    sws = switch_on(b, df, ("call", load.bb))
+    sws = truth_edges(b, df, ("call", load.bb))
     ok = False
     if len(sws) == 1:
-        edges, other = switch_edges(b, sws[0])
-        ttg = other if 0 in edges else edges.get(1)
+        ttg = sws[0][1]
         reach = b.reachable_from(ttg)
         errs = [1 for bb in reach for s in b.stmts(bb) if s[0] == "A" and s[1][0] == 0 and s[2][0] == "agg" and s[2][1][0] == "adt" and s[2][1][2] == "Err"]
         oks = [1 for bb in reach for s in b.stmts(bb) if s[0] == "A" and s[1][0] == 0 and s[2][0] == "agg" and s[2][1][0] == "adt" and s[2][1][2] == "Ok"]
@@ -240,11 +239,10 @@ def r3(ctx, facts):
     st_n = df.state_in.get(note.bb)
     r.instance("notify-only-if-pending", in_set(st_n.get(("call", some.bb)) if st_n else None, {1}),
                "notify_one() must be in the has_value==true region", note.span)
-    sws = switch_on(b, df, ("call", some.bb))
+    sws = truth_edges(b, df, ("call", some.bb))
     ok = False
     if len(sws) == 1:
-        edges, other = switch_edges(b, sws[0])
-        ttg = other if 0 in edges else edges.get(1)
+        ttg = sws[0][1]
         reach = b.reachable_from(ttg, removed_nodes=[note.bb])
         ok = not (reach & set(b.exits))
     r.instance("pending-implies-notify", ok, "every path from has_value==true to the return must call notify_one() (else the consumer sleeps on a pending value)", note.span)
